@@ -99,6 +99,31 @@ def _determinism():
       n += 1
       if lat[0] != lat[1]:
         bad.append(('random', seed, nf, nl, rank))
+  # across interpreters: nothing may depend on the per-process string-hash salt (sets / dicts of feature names)
+  import json as _json
+  import subprocess as _sp
+  script = (
+      "import json, os\n"
+      "os.environ['TF_CPP_MIN_LOG_LEVEL'] = '3'\n"
+      "import tensorflow_lattice as tfl\n"
+      "from tensorflow_lattice.python import premade_lib\n"
+      "out = {}\n"
+      "for (nf, rank) in ((4, 2), (5, 3), (6, 3)):\n"
+      "  names = ['feat_%s' % c for c in 'qwertz'[:nf]]\n"
+      "  cfg = tfl.configs.CalibratedLatticeEnsembleConfig(feature_configs=[tfl.configs.FeatureConfig(name=n) for n in names],\n"
+      "                                                     lattices='crystals', num_lattices=3, lattice_rank=rank, random_seed=11)\n"
+      "  pre = premade_lib.construct_prefitting_model_config(cfg, feature_names=names)\n"
+      "  out['%d,%d' % (nf, rank)] = [list(l) for l in pre.lattices]\n"
+      "print('RESULT' + json.dumps(out))\n")
+  runs = []
+  for salt in ('1', '2', '3'):
+    env = dict(os.environ, PYTHONHASHSEED=salt)
+    pr = _sp.run([sys.executable, '-c', script], env=env, capture_output=True, text=True, timeout=300)
+    line = [l for l in pr.stdout.splitlines() if l.startswith('RESULT')]
+    runs.append(_json.loads(line[0][6:]) if line else dict(error=(pr.stderr or pr.stdout)[-200:]))
+  n += 1
+  if any(r != runs[0] for r in runs[1:]) or 'error' in runs[0]:
+    bad.append(('crystals-prefitting-cover across PYTHONHASHSEED', runs[0], [r for r in runs[1:] if r != runs[0]][:1]))
   return n, bad
 
 
